@@ -50,8 +50,8 @@ RESTART = {"act": "restart", "d": "rpc", "s": "-", "x": 0, "y": 0, "res": {}}
 
 def design_level(ctx):
     quick = ctx.tier == "quick"
-    consts = {"Contacts": tla_set(["c1", "c2"]), "MaxLog": "3" if quick else "4", "Ys": "{3}" if quick else "{0, 3}",
-              "Bad": tla_set(["self"] if quick else ["self", "badkey", "noseed"])}
+    consts = {"Contacts": tla_set(["c1", "c2"]), "MaxLog": "3" if quick else "4", "Ys": "{3}" if quick else "{1, 2}",
+              "Bad": tla_set(["self"] if quick else ["self", "noseed"])}
     r = ctx.tlc("ContactApi", "MC_ContactApi.cfg", name="mc_contactapi", workers=4, timeout=1500, consts=consts, allow_violation=True)
     if not r.ok:
         raise vf.Infra("ContactApi.tla must satisfy its invariants: %s" % (r.violated or r.error))
@@ -66,8 +66,8 @@ def tlc_histories(ctx):
         ("all-1c", 1, LIFE, [], [3], 3 if quick else 4, False, None),
         ("all-2c", 2, LIFE, [], [1] if quick else [2], 2 if quick else 3, False, None),
         ("bad-1c", 1, LIFE, ALLBAD, [0], 1 if quick else 2, False, None),
-        ("walk", 2, LIFE + SWITCH, ALLBAD, [0, 1, 2, 3], 10 if quick else 14, True, 200 if quick else 600),
-        ("walk-life", 2, LIFE, ["self", "badkey"], [0, 1, 2, 3], 12 if quick else 16, True, 80 if quick else 400),
+        ("walk", 2, LIFE + SWITCH, ALLBAD, [0, 1, 2, 3], 10 if quick else 14, True, 200 if quick else 400),
+        ("walk-life", 2, LIFE, ["self", "badkey"], [0, 1, 2, 3], 12 if quick else 16, True, 80 if quick else 250),
     ]
     if quick:       # the malformed pairs are in the model-independent catalogue; one walk family (fewer TLC start-ups)
         plans = [p for p in plans if p[0] not in ("bad-1c", "walk-life")]
@@ -106,7 +106,7 @@ def blind_histories(ctx):
         cat.append(steps)
     walks = []
     alphabet = [(o, "") for o in LIFE] * 4 + [("recv", "noseed")] * 2 + pairs + [(o, "") for o in SWITCH] * 2
-    for _ in range(40 if quick else 300):
+    for _ in range(40 if quick else 200):
         nc = rng.choice([1, 2, 2, 3])
         steps = []
         for c in range(1, nc + 1):     # start somewhere in the lifecycle, not always at U
@@ -233,7 +233,7 @@ def replay(ctx, binary, scripts):
     maxc = max(s["cfg"]["contacts"] for s in scripts)
     conf_consts = {"Contacts": tla_set(["c%d" % (i + 1) for i in range(maxc)])}
     blocks_all = vf.split_traces(events)
-    G = 100
+    G = 150
     groups = [blocks_all[g:g + G] for g in range(0, len(blocks_all), G)]
     results = [None] * len(groups)
     tv0, ct0, nd0 = ctx.traces_validated, ctx.extra.get("conformant_traces", 0), len(ctx.drift)
